@@ -72,10 +72,13 @@ json.dump(out, sys.stdout)
 
 
 def fresh_reference(job):
-    """the same call in a fresh interpreter process"""
-    src, opts = job
+    """the same call in a fresh interpreter process (job may carry a third item: the string-hash
+    seed of that process)"""
+    src, opts = job[0], job[1]
     envv = dict(os.environ)
     envv.pop("PYTHONPATH", None)
+    if len(job) > 2:
+        envv["PYTHONHASHSEED"] = str(job[2])
     p = subprocess.run([sys.executable, "-c", _REF_SCRIPT, env.REPO],
                        input=json.dumps({"src": src, "opts": opts}), capture_output=True,
                        text=True, env=envv, timeout=120)
@@ -468,6 +471,27 @@ def run(report):
                                       "diffs": run_history_fresh_diffs(h), "what": "history-dependent conversion result"})
     for part in env.pmap(_pair_shard, [(i, env.NPROC) for i in range(env.NPROC)]):
         report.absorb(part)
+    # the interpreter's string-hash seed is state of the process too: the same call in fresh
+    # processes with OTHER hash seeds must give the text of the reference (computed under seed 0)
+    hs_jobs, hs_keys = [], []
+    hseeds = (1, 2, 3) if quick else (1, 2, 3, 4, 5, 6, 7, 8)
+    for i, n in enumerate(sorted(PROGRAMS)):
+        for j, hsd in enumerate(hseeds):
+            key = env.ALL_CFGS[(i + 3 * j) % 8]
+            hs_jobs.append((PROGRAMS[n], dict(zip(("unparser", "expr_wrapper", "if_style"), key)), hsd))
+            hs_keys.append((n, key, hsd))
+    hs_res = env.pmap(fresh_reference, hs_jobs)
+    for (n, key, hsd), r in zip(hs_keys, hs_res):
+        report.evaluations += 1
+        report.classes["hash-seed-sweep"] += 1
+        report.nontrivial.add(key_hash("hashseed", n, key, hsd))
+        if r != REFS[(n, key)]:
+            report.violations.append({
+                "payload": {"kind": "hashseed", "prog": n, "src": PROGRAMS[n], "cfg": list(key), "hash_seed": hsd},
+                "diffs": ["converted in a fresh process with PYTHONHASHSEED=%d the text differs from the one under PYTHONHASHSEED=0 "
+                          "(beyond the renaming of temporaries): %s" % (hsd, _first_difference(REFS[(n, key)], r))],
+                "what": "conversion result depends on the string-hash seed of the process (%s, %s)" % (n, env.cfg_name(key))})
+    report.extra["hash_seeds_tried"] = list(hseeds)
     n_seeds = 1600 if quick else 16000
     step = n_seeds // env.NPROC
     for part in env.pmap(_seed_shard, [(i * step, (i + 1) * step) for i in range(env.NPROC)]):
@@ -488,11 +512,25 @@ def run(report):
     ]
 
 
+def _first_difference(a, b):
+    if a[0] != b[0]:
+        return "%r vs %r" % (a[0], b[0])
+    x, y = a[1], b[1]
+    k = next((i for i in range(min(len(x), len(y))) if x[i] != y[i]), min(len(x), len(y)))
+    return "...%r vs ...%r" % (x[max(0, k - 40):k + 40], y[max(0, k - 40):k + 40])
+
+
 def run_history_fresh_diffs(h):
     return ["history fails when run from a fresh process: %s" % json.dumps(h)]
 
 
 def replay(payload):
+    if payload.get("kind") == "hashseed":
+        o = dict(zip(("unparser", "expr_wrapper", "if_style"), payload["cfg"]))
+        a = fresh_reference((payload["src"], o, 0))
+        b = fresh_reference((payload["src"], o, payload["hash_seed"]))
+        return [] if a == b else ["text under PYTHONHASHSEED=%d differs from the text under PYTHONHASHSEED=0: %s" % (
+            payload["hash_seed"], _first_difference(a, b))]
     if payload.get("kind") != "history":
         raise env.HarnessError("unknown replay payload kind %r" % payload.get("kind"))
     global PROGRAMS, REFS
